@@ -143,7 +143,14 @@ func DecodeHEVCDecConfRec(data []byte) (DecConfRec, error) {
 		numNalus := int(sr.ReadUint16())
 		for i := 0; i < numNalus; i++ {
 			naluLength := int(sr.ReadUint16())
-			array.Nalus = append(array.Nalus, sr.ReadBytes(naluLength))
+			nalu := sr.ReadBytes(naluLength)
+			if sr.AccError() != nil {
+				return hdcr, sr.AccError()
+			}
+			array.Nalus = append(array.Nalus, nalu)
+		}
+		if sr.AccError() != nil {
+			return hdcr, sr.AccError()
 		}
 		hdcr.NaluArrays = append(hdcr.NaluArrays, array)
 	}
